@@ -84,6 +84,22 @@ func checkC14(c *Ctx, r *Report) {
 		r.add("C14.a", "nilarg", s.Key, desc, []string{s.Caller, s.Callee}, []string{w.pos(s.Pos)}, viol)
 	}
 	r.count("possibly_nil_argument_sites", len(na))
+	// optional configuration sections (pointer fields without `required`) are nil-tested before use
+	seenOC := map[string]bool{}
+	for _, s := range w.optionalConfigDerefSites() {
+		if seenOC[s.Key] {
+			continue
+		}
+		seenOC[s.Key] = true
+		viol := ""
+		desc := s.Key
+		if reason, ok := tbl.NilDeref[s.Key]; ok {
+			desc += " (invariant: " + reason + ")"
+		} else {
+			viol = fmt.Sprintf("%s: %s dereferences the optional configuration section %s without a nil test: a valid configuration that omits the section crashes the command", w.pos(s.Pos), s.Caller, s.Callee)
+		}
+		r.add("C14.a", "nilarg", s.Key, desc, []string{s.Caller}, []string{w.pos(s.Pos)}, viol)
+	}
 	// file-system errors are never lost: after a failing os/io call every way on is a failure exit
 	checkIOErrors(c, r, tbl)
 
